@@ -11,7 +11,7 @@ use std::sync::atomic::{AtomicBool, AtomicU32, AtomicU64, Ordering};
 use std::time::{SystemTime, UNIX_EPOCH};
 
 pub const LOAD_DEADLINE_MS: u64 = 15_000;
-pub const LIVE_LIMIT: usize = 4 << 30;
+pub const LIVE_LIMIT: usize = 6 << 30;
 
 static CODE: AtomicU32 = AtomicU32::new(0);
 /// start of the load in progress (ms since epoch), 0 = none
@@ -68,7 +68,7 @@ pub fn install() {
 pub fn explain_exit(code: i32) -> String {
     let (what, c) = match code {
         100..=139 => ("abort (SIGABRT: stack overflow guard, allocation failure or explicit abort)", code - 100),
-        140..=179 => ("watchdog (one load ran longer than 15 s or its live heap exceeded 4 GiB)", code - 140),
+        140..=179 => ("watchdog (one load ran longer than 15 s or its live heap exceeded 6 GiB)", code - 140),
         _ => return format!("exit code {}", code),
     };
     let fmt = ["binary", "compressed", "json", "sql"][(c / 4).clamp(0, 3) as usize];
